@@ -31,6 +31,18 @@ def obligations(tier):
                     obs.append(Ob(id=f'sdl.b0_{b0}.b1_{b1}.l2_{l2}', module=M, func='order_independent', params=params, args=args,
                                   pre=pre, timeout=T, group='permutations',
                                   bound='as quick, plus a link from C (#%d), annotation on any type, with / without properties' % l2))
+    # one shared multi link `l`, overloaded where an ancestor declares it too (24576 documents x orders)
+    for b0 in range(4):
+        obs.append(Ob(id=f'sdl.shared-link.b0_{b0}', module=M, func='order_independent_shared',
+                      params='b1: int, b2: int, l0: int, l1: int, l2: int, perm: int', args=f'{b0}, b1, b2, l0, l1, l2, perm, True',
+                      pre=['0 <= b1 <= 3 and 0 <= b2 <= 3 and 0 <= l0 <= 3 and 0 <= l1 <= 3 and 0 <= l2 <= 3 and 0 <= perm <= 5'],
+                      timeout=T, group='shared link',
+                      bound='types A, B, C with any extending relation (A extends #%d); each type declares the multi link `l` to any '
+                            'type or not at all, `overloaded` where an ancestor declares it; all 6 orders of the declarations; the '
+                            'witness class of known finding F18 is excluded here and re-derived by sdl.F18' % b0))
+    obs.append(Ob(id='sdl.F18', module=M, func='order_independent_shared', params='l2: int, perm: int',
+                  args='0, 1, 2, 1, 2, l2, perm, False', pre=['0 <= l2 <= 3 and 0 <= perm <= 5'], timeout=T, group='F18', finding='F18',
+                  bound='A { multi link l: A }, B extending A { overloaded multi link l: B }, C extending B { l: any / none }; all orders'))
     obs.append(Ob(id='twin.sdl', module=M, func='order_independent', params='perm: int', post='not _', expect='cex',
                   args='0, 1, 2, 2, 3, 0, 0, True, perm, True, True', pre=['0 <= perm <= 23'], timeout=120, group='twin'))
     return obs
@@ -51,7 +63,8 @@ def run(tier, only=''):
                      'both must be accepted or both rejected, accepted documents must give structurally equal, referentially '
                      'intact schemas, and a dependency-cycle rejection may only happen when the extending relation really is cyclic.'),
         bounds={'types': 3, 'extending': 'each type extends nothing or one of the three (self / cyclic cases included)',
-                'members': 'one property per type, optional link to any type, optional annotation value',
+                'members': 'one property per type, optional link to any type, optional annotation value; second family: one shared '
+                           '(overloaded) multi link',
                 'orders': 'all permutations of the top-level declarations x body member order x module-block split'},
         stubs=STUBS[:1] + ['SDL documents are hand-built qlast.Schema nodes (no text parser)'],
         trusted_base=['structural-equality and integrity oracles in vlib/schema_kit.py', 'CrossHair, z3'],
